@@ -52,14 +52,25 @@ func buildState(tag string, raw json.RawMessage, typed bool) interface{} {
 	if err := json.Unmarshal(raw, &g); err != nil {
 		panic(fmt.Sprintf("bad value for %s: %v", tag, err))
 	}
-	return g
+	return probe{v: g, f: probeHook}
 }
+
+// probeHook is called by viper's YAML encoder in the middle of a write (see type probe).
+func probeHook() {
+	if r := currentRecorder; r != nil {
+		r.hook("save:probe")
+	}
+}
+
+// currentRecorder is the recorder of the case being run (nil while its directory is laid out).
+var currentRecorder *recorder
 
 // ---------- save recorder (installed as the verifPoint hook) ----------
 
 type saveRec struct {
 	pos   int // number of updates the updater had taken from its channel when the save began
 	snaps map[int]Snap
+	probe Snap // the directory while viper has its output file open and has not yet written it
 	end   Snap
 	begun time.Time
 }
@@ -71,6 +82,9 @@ type recorder struct {
 	saves []*saveRec
 	cur   *saveRec
 	cond  *sync.Cond
+	// while dastard's own SourceControl queues messages the harness cannot count them: a save that begins
+	// then has no known position (the case is run again)
+	extern, externSave bool
 	// parking the updater at the beginning of its next save (it runs the hook on its own goroutine)
 	parkWanted bool
 	parked     chan int      // receives the position of the save at which the updater is parked
@@ -114,9 +128,16 @@ func (r *recorder) hook(name string) {
 		return
 	}
 	switch what := name[5:]; what {
+	case "probe":
+		if r.cur != nil && r.cur.probe == nil {
+			r.cur.probe = readDir(r.dir)
+		}
 	case "0":
 		r.mu.Lock()
 		r.cur = &saveRec{pos: r.sent - dastard.VerifC16Queued(), snaps: map[int]Snap{}, begun: time.Now()}
+		if r.extern {
+			r.externSave = true
+		}
 		park := r.parkWanted
 		r.parkWanted = false
 		parked, release := r.parked, r.release
@@ -196,12 +217,17 @@ func renderSave(s *saveRec, tb *Table, scratch string, tags map[string]bool, d d
 			break
 		}
 		reached = n
-		if n == 1 {
+		if n == 1 && s.probe == nil {
+			// no probe was in the configuration: the state between open and write is constructed
 			mid := s.snaps[0].clone()
 			mid[tmpName] = []byte{}
 			trace = append(trace, mid)
 		}
 		trace = append(trace, sn)
+		if n == 0 && s.probe != nil {
+			trace = append(trace, s.probe) // observed: the output file is open (truncated), nothing written yet
+			tags["write-observed-in-progress"] = true
+		}
 	}
 	if len(trace) == 0 || !s.end.equal(trace[len(trace)-1]) {
 		trace = append(trace, s.end) // a step that failed yet changed the directory: shown as an extra state
@@ -268,6 +294,7 @@ type dirSpec struct {
 	TmpLeft     string           `json:"tmp,omitempty"`  // a left-over temporary file (raw text)
 	Other       string           `json:"other,omitempty"`
 	MainMissing bool             `json:"main_missing,omitempty"` // the main file disappears after start-up read it
+	MainSymlink bool             `json:"main_symlink,omitempty"` // config.yaml is a symbolic link to a file in another directory
 	TmpIsDir    bool             `json:"tmp_is_dir,omitempty"`   // a directory sits where the temporary file goes: the write fails
 	BakIsDir    bool             `json:"bak_is_dir,omitempty"`   // a non-empty directory sits where the backup goes: its removal fails
 }
@@ -304,7 +331,18 @@ func prepareDir(dir string, d dirSpec) (cfg []Entry) {
 		panic(err)
 	}
 	mainp := filepath.Join(dir, mainName)
-	writeYAML(mainp, d.Init)
+	if d.MainSymlink {
+		other := filepath.Join(filepath.Dir(dir), "dotfiles")
+		if err := os.MkdirAll(other, 0o775); err != nil {
+			panic(err)
+		}
+		writeYAML(filepath.Join(other, "dastard-config.yaml"), d.Init)
+		if err := os.Symlink(filepath.Join("..", "dotfiles", "dastard-config.yaml"), mainp); err != nil {
+			panic(err)
+		}
+	} else {
+		writeYAML(mainp, d.Init)
+	}
 	if d.Bak != nil {
 		writeYAML(filepath.Join(dir, bakName), d.Bak)
 	}
@@ -338,7 +376,14 @@ func attachViper(dir string) []Entry {
 	if err := viper.ReadInConfig(); err != nil {
 		panic(fmt.Sprintf("cannot read the configuration: %v", err))
 	}
-	return canonEntries(viper.GetViper(), func(k string) bool { return viper.InConfig(k) })
+	b, _ := os.ReadFile(filepath.Join(dir, mainName))
+	var keys []string
+	for _, k := range topLevelKeys(b) {
+		if viper.InConfig(k) {
+			keys = append(keys, k)
+		}
+	}
+	return canonEntries(viper.GetViper(), keys)
 }
 
 // killAndRestart leaves the directory as a kill at the given point of the last save would (all regular
@@ -348,7 +393,7 @@ func killAndRestart(home, dir string, snap Snap) {
 	if snap != nil {
 		ents, _ := os.ReadDir(dir)
 		for _, e := range ents {
-			if e.Type().IsRegular() {
+			if !e.IsDir() {
 				os.Remove(filepath.Join(dir, e.Name()))
 			}
 		}
@@ -376,6 +421,8 @@ func runDirect(c Case, scratch string, tags map[string]bool) (string, interface{
 	tb := newTable()
 	dir0 := tb.coqDir(readDir(dir))
 	rec := newRecorder(dir)
+	currentRecorder = rec
+	defer func() { currentRecorder = nil }()
 	dastard.VerifSetPointHook(rec.hook)
 	defer dastard.VerifSetPointHook(nil)
 	last := map[string]interface{}{}
@@ -566,6 +613,8 @@ func runHist(c Case, scratch string, tags map[string]bool) (string, interface{},
 	tb := newTable()
 	dir0 := tb.coqDir(readDir(dir))
 	rec := newRecorder(dir)
+	currentRecorder = rec
+	defer func() { currentRecorder = nil }()
 	dastard.VerifSetPointHook(rec.hook)
 	defer dastard.VerifSetPointHook(nil)
 
@@ -791,6 +840,81 @@ func runHist(c Case, scratch string, tags map[string]bool) (string, interface{},
 				panic("SendAllStatus did not return")
 			}
 			closeBatch()
+		case "SRC":
+			// A piece of history made by dastard itself: a triangle source is started through the real
+			// SourceControl, writing is started under a base path, and the source is stopped — while still
+			// writing (N=0) or after WriteControl Stop (N=1).  The harness does not know which messages
+			// this queues: every one is published exactly once, so they are learnt from the SUB socket.
+			closeBatch()
+			if broken {
+				break
+			}
+			if sc == nil {
+				sc = dastard.VerifC16NewSourceControl(400, 1000)
+			}
+			useOwnRecordChannels()
+			rec.mu.Lock()
+			rec.extern = true
+			rec.mu.Unlock()
+			base := filepath.Join(scratch, "data", fmt.Sprintf("run%d", i))
+			os.MkdirAll(base, 0o775)
+			okay := false
+			dummy := "dummy"
+			name := "TRIANGLESOURCE"
+			tcfg := dastard.TriangleSourceConfig{Nchan: 4, SampleRate: 10000, Min: 100, Max: 200}
+			sc.ConfigureTriangleSource(&tcfg, &okay)
+			started := sc.Start(&name, &okay) == nil
+			writing := false
+			if started {
+				wc := dastard.WriteControlConfig{Request: "Start", Path: base, WriteLJH22: true}
+				writing = sc.WriteControl(&wc, &okay) == nil
+				if writing && o.N == 1 {
+					wc2 := dastard.WriteControlConfig{Request: "Stop"}
+					sc.WriteControl(&wc2, &okay)
+				}
+				sc.Stop(&dummy, &okay)
+			}
+			// everything dastard queued is in the channel before this sentinel
+			syncNo++
+			body := strconv.Itoa(syncNo)
+			rec.send(syncTag, syncNo)
+			idx := sub.waitFor(recvFrom, syncTag, body, 30*time.Second)
+			sub.mu.Lock()
+			var got []received
+			if idx < 0 {
+				broken = true
+				got = append(got, sub.msgs[recvFrom:]...)
+				recvFrom = len(sub.msgs)
+			} else {
+				got = append(got, sub.msgs[recvFrom:idx]...)
+				recvFrom = idx + 1
+			}
+			sub.mu.Unlock()
+			first := len(sentLog)
+			for _, m := range got {
+				sentLog = append(sentLog, sentMsg{ev: i, tag: m.tag, extern: true, arming: true,
+					text: m.body, obj: canonFromText(m.tag, m.body)})
+			}
+			batches = append(batches, batch{first: first, last: len(sentLog), msgs: got})
+			sentLog = append(sentLog, sentMsg{ev: -1, tag: syncTag, sync: true, obj: canonSent(syncTag, syncNo), text: body})
+			batchStart = len(sentLog)
+			rec.addSent(len(got))
+			rec.mu.Lock()
+			rec.extern = false
+			if rec.externSave {
+				tags["save-during-extern"] = true
+			}
+			rec.mu.Unlock()
+			tags["history-through-sourcecontrol"] = true
+			if writing {
+				// the RPC layer has put this base path into effect
+				inUse := mustJSON(project("writing", &dastard.WritingState{BasePath: base}))
+				markers = append(markers, marker{pos: len(sentLog), nsaves: func() int { rec.mu.Lock(); defer rec.mu.Unlock(); return len(rec.saves) }(), term: fmt.Sprintf("IU %s %s", coqStr("writing"), coqVal(inUse)),
+					impl: map[string]string{"base_path_in_use": base}})
+				if o.N == 0 {
+					tags["source-stopped-while-writing"] = true
+				}
+			}
 		case "R":
 			closeBatch()
 			if broken {
@@ -939,4 +1063,24 @@ func boolStr(b bool) string {
 		return "true"
 	}
 	return "false"
+}
+
+var ownChannels sync.Once
+
+// useOwnRecordChannels keeps a running source from binding dastard's fixed ZMQ ports for records and
+// summaries: the package-level publication channels are pre-set and drained.
+func useOwnRecordChannels() {
+	ownChannels.Do(func() {
+		rc := make(chan []*dastard.DataRecord, 256)
+		sm := make(chan []*dastard.DataRecord, 256)
+		dastard.PubRecordsChan, dastard.PubSummariesChan = rc, sm
+		go func() {
+			for range rc {
+			}
+		}()
+		go func() {
+			for range sm {
+			}
+		}()
+	})
 }
